@@ -230,9 +230,13 @@ func (e *Enc) header() (string, []string) {
 	specs = e.specDefs()
 	// component declarations first (they may request helper declarations such as root)
 	var cb strings.Builder
+	e.allocComp() // the entry-closedness axioms mention alloc@0
 	for _, n := range e.W.compOrder {
 		c := e.W.comps[n]
 		fmt.Fprintf(&cb, "(declare-const %s@0 %s)\n", c.Name, c.Sort)
+	}
+	for _, n := range e.W.compOrder {
+		c := e.W.comps[n]
 		for _, ax := range heapTypeAxioms(e.W, c, c.Name+"@0") {
 			cb.WriteString(ax + "\n")
 		}
